@@ -14,6 +14,10 @@ package safedetails
 //@ method (*withSafeDetails).Unwrap
 //@   props C07 C10 C14
 //@   ensures result == self.cause
+//@ method (*withSafeDetails).SafeFormatError
+//@   props C09
+//@   requires p != nil
+//@   ensures result == self.cause
 
 //@ method (*withSafeDetails).SafeDetails
 //@   props C03 C11 C12
